@@ -1,9 +1,9 @@
 """C08 - data retention on down servers, frozen servers, blacklisting."""
 from mc.props import _cellprop
-from mc.worlds import cellcfg, cellmon
+from mc.props import _masterprop
+from mc.worlds import cellcfg, cellmon, mastercfg
 
-BUDGET = {'quick': 60, 'thorough': 600}
-HASH_INSENSITIVE = True
+BUDGET = {'quick': 240, 'thorough': 900}
 
 
 def _k1():
@@ -29,10 +29,40 @@ def _k1():
     return cfg
 
 
+def _m1():
+    """World B: presence loss, server_state events (_freeze_server),
+    adjust_presence, app blacklist events."""
+    cfg = mastercfg.m1()
+    cfg['idgroups'] = {}
+    cfg['cellmonitors'] = [cellmon.mon_c08]
+    cfg['templates'] = {
+        'sm': {'memory': '3M', 'cpu': '3%', 'disk': '3M', 'affinity': 'a',
+               'data_retention_timeout': '30s'},
+        'r0': {'memory': '6M', 'cpu': '2%', 'disk': '2M', 'affinity': 'b',
+               'data_retention_timeout': '0s'},
+        'rn': {'memory': '2M', 'cpu': '2%', 'disk': '2M', 'affinity': 'c'},
+        'hi': {'memory': '10M', 'cpu': '10%', 'disk': '10M', 'affinity': 'd',
+               'priority': 100, 'data_retention_timeout': '30s'},
+    }
+    cfg['events'] = mastercfg.ev(
+        ('app+', 'sm'), ('app+', 'r0'), ('app+', 'rn'), ('app+', 'hi'),
+        ('app-', 0),
+        ('pres-', 's0'), ('pres+', 's0', 0), ('pres-', 's1'),
+        ('pres+', 's1', 0),
+        ('state', 's0', 'frozen', -1), ('state', 's0', 'frozen', 0),
+        ('state', 's0', 'up', -1), ('state', 's1', 'down', -1),
+        ('bl', 1), ('bl', 0),
+        ('tick', 10), ('tick', 25), ('tick', 40), ('noop',),
+    )
+    return cfg
+
+
 def configs(ctx):
     if ctx.quick:
-        return [('K1', _k1(), 4, 1)]
-    return [('K1', _k1(), 6, 1)]
+        return [('K1', _k1(), 4, 1),
+                ('M1', _m1(), 3, 0, _masterprop.MasterSpec)]
+    return [('K1', _k1(), 6, 1),
+            ('M1', _m1(), 5, 1, _masterprop.MasterSpec)]
 
 
 RULE = ('BFS over down/up/frozen transitions, clock advances around the '
